@@ -36,6 +36,27 @@ CHECKS = {
   technique='differential property-based testing: real tee_map vs cause-tagged branches run alone + join rule',
   text='Each generated branch pipeline is run alone (real code) with event-numbering taps; ordering the outputs by (event, branch, emission) and applying the merge/zip/combine_latest rule must reproduce the real tee_map output exactly: on one key, per key lifetime under group_by/roll/split/time_split (slot re-use), and on plain Subject-driven observables with early-completing branches. Exploration.',
   note='Only fan-out and join are modelled; relies on synchronous execution for cause tagging.'),
+ 'C09': dict(
+  technique='model-based + metamorphic property testing (pure re-implementation of the fold; reduce vs streaming; object-identity isolation checks)',
+  text='scan with generated accumulators (incl. mutating list/dict/nested ones), seeds as value or factory, reduce and terminator on/off, per key lifetime under group_by/roll/split/time_split nestings and raw slot histories: streaming output == running left fold from a fresh seed, reduce == one item == last fold or seed, last streaming == reduce, terminator exactly once, accumulators of different lifetimes are distinct objects and mutating one changes neither the others nor the seed, a second subscription restarts from the original seed; every operator defined through scan (count..dist.update, progress) vs its list definition per key. Exploration.',
+  note='The pure re-implementations of the accumulators are the specification; finite accumulator family.'),
+ 'C10': dict(
+  technique='property-based testing against list definitions / validity predicates + bounded-exhaustive enumeration of short sequences',
+  text='first, last, take, distinct, distinct_until_changed, lag, pad_start, pad_end, start_with, batch on plain observables (where supported), with_memory_store, per key under group_by and on re-used raw slots, sort on plain observables (permutation, monotone keys, stability); values include None and equal-not-identical objects; every sequence over {0,1,None} up to length 4 (thorough 6) x every operator x every parameter is enumerated.',
+  note='Padding operators judged on non-empty sequences only (empty: emits nothing, completes).'),
+ 'C12': dict(
+  technique='property-based testing against exact rational arithmetic with an explicit forward-error bound',
+  text='sum, mean, min, max, variance, stddev, formal.variance, formal.stddev, streaming (every prefix) and reduce, with/without key_mapper, plain / with_memory_store / per key: compared with Fraction arithmetic on the same doubles; error must stay below c*n*u*(condition) (+ underflow term), min/max exact, <2 items exactly 0.0, last streaming == reduce. Data include offsets up to 1e9 with scales down to 1e-6 (condition numbers up to ~1e15), 10^4 items in the thorough tier.',
+  note='An error smaller than the stated bound (8(n+2)u(V+|mu|sqrt V)) is not detected.'),
+ 'C13': dict(
+  category='fault_enumeration',
+  technique='fault-injection property testing: generated and exhaustively enumerated subsets of raising items against a reference computed without them',
+  text='For map/starmap/filter/scan raising on flagged items, with ignore / error.map / error router / no handler directly behind, tails to_list/scan/count, drivers with_memory_store / multiplex / group_by with interleaved keys: exactly one mux error per flagged item in place (tap), main output == output without the flagged items (mapped in place for error.map), dead letters exactly the exceptions in order then completion, unhandled error surfaces as on_error(Boom(first)) with a prefix of the clean output. ALL failing subsets for n<=4 (thorough 6) x operators x handlers x {1,2} keys are enumerated.',
+  note='Handler directly after the failing operator, as the property states.'),
+ 'C14': dict(
+  technique='stateful (rule-based state machine) property testing against a dict model',
+  text='Hypothesis RuleBasedStateMachine histories (50 steps) of add_key/set/get/del_key/iterate/add_map/get_map/iterate_map/flush over sparse, descending, re-added indices, for int/uint/float/bool/obj/mapper states with and without defaults, on MemoryStore and through StoreManager with a 3-state topology; after every step all live slots of all states are re-read against the model.',
+  note='Only calls the operators make are generated (reads/writes on added indices; del_map only in the group_by flush sequence).'),
  'C11': dict(
   technique='model-based property testing with a stepped (Subject-driven) source and a timed reference model',
   text='Every output of generated pipelines (nested windows, groups, tees; plain dual-mode pipelines with early completion) is stamped with the source push during which it was emitted; per push the multiset of outputs must equal that of the reference model, so nothing is early and nothing is late. Exploration.',
